@@ -480,7 +480,42 @@ func runC13(c *Ctx) {
 				}
 			}
 		})
-		c.check(good, "full-length@parseNetipPrefix", f.Pos(), "a bare address becomes addr.Prefix(addr.BitLen())", "a bare address in ip_set args is not loaded as a full-length prefix")
+		// every result is netip.ParsePrefix(s) as parsed, or addr.Prefix(addr.BitLen()) of the parsed address — nothing
+		// re-assembles a prefix from an address and a length that belong to different families
+		for _, r := range returnsOf(f) {
+			rv := returnedValues(r)
+			if len(rv) == 0 {
+				continue
+			}
+			okRet := false
+			switch x := rv[0].(type) {
+			case *ssa.Extract:
+				if cl, ok := x.Tuple.(*ssa.Call); ok {
+					cn := callName(cl)
+					if (cn == "net/netip.ParsePrefix" && cl.Call.Args[0] == ssa.Value(f.Params[0])) || cn == "(net/netip.Addr).Prefix" {
+						okRet = true
+					}
+				}
+			case *ssa.Call:
+				cn := callName(x)
+				if (cn == "net/netip.ParsePrefix" && x.Call.Args[0] == ssa.Value(f.Params[0])) || cn == "(net/netip.Addr).Prefix" {
+					okRet = true
+				}
+			default:
+				if _, isZero := rv[0].(*ssa.Const); isZero {
+					okRet = true
+				}
+				if ld, ok := rv[0].(*ssa.UnOp); ok {
+					if _, isAl := ld.X.(*ssa.Alloc); isAl {
+						okRet = true // the zero Prefix{} literal on the error path
+					}
+				}
+			}
+			if !okRet {
+				good = false
+			}
+		}
+		c.check(good, "full-length@parseNetipPrefix", f.Pos(), "results are ParsePrefix(s) as parsed or addr.Prefix(addr.BitLen())", "parseNetipPrefix re-assembles its result (e.g. PrefixFrom(unmapped address, original length)): address and length of different families give an invalid prefix that Append then turns into a huge valid one")
 	}
 	_ = fmt.Sprint
 
